@@ -391,7 +391,71 @@ func c19Show(qs []*c19Q) string {
 	return strings.Join(parts, ",")
 }
 
+// queries rebuilt from query strings are kept: building later ones must not change them
+type c19Kept struct {
+	q  *gojson.FieldQuery
+	qs gojson.FieldQueryString
+}
+
+var c19Rebuilt []c19Kept
+
+func c19CheckKept(o *Out) {
+	for _, k := range c19Rebuilt {
+		now, err := k.q.QueryString()
+		o.count("kept_queries_rechecked", 1)
+		if err != nil || now != k.qs {
+			o.violation("C19", "a query built from a query string changed when other queries were built later", map[string]string{
+				"built_from": string(k.qs), "prints_now": string(now), "err": fmt.Sprint(err)})
+			return
+		}
+	}
+}
+
+// query strings with sub field queries that have no fields ( {"name":null} ): each selects its own field as a whole
+func c19WholeFieldSubQueries(o *Out) {
+	type inner struct {
+		P int `json:"p"`
+		Q int `json:"q"`
+	}
+	type doc struct {
+		A inner  `json:"a"`
+		B inner  `json:"b"`
+		C []int  `json:"c"`
+		D string `json:"d"`
+	}
+	v := doc{inner{1, 2}, inner{3, 4}, []int{5}, "x"}
+	cases := []struct{ qs, want string }{
+		{`["d",{"a":null}]`, `{"a":{"p":1,"q":2},"d":"x"}`},
+		{`["d",{"b":null}]`, `{"b":{"p":3,"q":4},"d":"x"}`},
+		{`[{"a":null},{"b":null},"c"]`, `{"a":{"p":1,"q":2},"b":{"p":3,"q":4},"c":[5]}`},
+		{`[{"a":["q"]},{"b":null}]`, `{"a":{"q":2},"b":{"p":3,"q":4}}`},
+		{`[{"b":null},{"a":null}]`, `{"a":{"p":1,"q":2},"b":{"p":3,"q":4}}`},
+	}
+	var built []*gojson.FieldQuery
+	for _, c := range cases {
+		q, err := gojson.FieldQueryString(c.qs).Build()
+		if err != nil {
+			o.violation("C19", "a query string with a sub field query without fields is refused", map[string]string{"query_string": c.qs, "err": err.Error()})
+			return
+		}
+		built = append(built, q)
+		c19Rebuilt = append(c19Rebuilt, c19Kept{q, func() gojson.FieldQueryString { s, _ := q.QueryString(); return s }()})
+	}
+	// used after all of them exist, each on a type/query pair not seen before
+	for i, c := range cases {
+		ctx := gojson.SetFieldQueryToContext(context.Background(), built[i])
+		got, err := c01Safe(func() ([]byte, error) { return gojson.MarshalContext(ctx, v) })
+		o.count("whole_field_sub_query_cases", 1)
+		if err != nil || !tgSameJSON(got, []byte(c.want)) {
+			o.violation("C19", "a sub field query without fields does not select its own field as a whole", map[string]string{
+				"query_string": c.qs, "got": string(got), "want": c.want, "err": fmt.Sprint(err)})
+		}
+	}
+}
+
 func runC19(o *Out) {
+	c19WholeFieldSubQueries(o)
+	defer c19CheckKept(o)
 	r := o.rng
 	ntypes := 500
 	if o.tier == "thorough" {
@@ -508,6 +572,7 @@ func c19Value(o *Out, r *rand.Rand, t reflect.Type, v reflect.Value, nq int) {
 					o.violation("C19", "a query cannot be rebuilt from its own QueryString", map[string]string{"query": c19Show(j.qs), "query_string": string(qs), "err": err.Error()})
 					continue
 				}
+				c19Rebuilt = append(c19Rebuilt, c19Kept{q2, qs})
 				if qs2, err := q2.QueryString(); err == nil {
 					var qw strings.Builder
 					c19QueryWire(&qw, "", j.qs)
@@ -550,7 +615,7 @@ func c19Classify(t reflect.Type, v reflect.Value, qs []*c19Q) string {
 	rec := false
 	tgValueTypes(v, 0, func(x reflect.Type) {
 		switch x {
-		case reflect.TypeOf(TgRec{}), reflect.TypeOf(TgMutA{}), reflect.TypeOf(TgMutB{}), reflect.TypeOf(TgRecEmb{}), reflect.TypeOf(TgMutEmbA{}), reflect.TypeOf(TgMutEmbB{}):
+		case reflect.TypeOf(TgRec{}), reflect.TypeOf(TgMutA{}), reflect.TypeOf(TgMutB{}), reflect.TypeOf(TgRecEmb{}), reflect.TypeOf(TgMutEmbA{}), reflect.TypeOf(TgMutEmbB{}), reflect.TypeOf(TgItem{}), reflect.TypeOf(TgItemLink{}), reflect.TypeOf(TgItemBase{}):
 			rec = true
 		}
 	})
